@@ -236,3 +236,30 @@ PROPS["C16"] = {
         "Arc, Bytes::from / to_vec preserve contents",
     ],
 }
+
+PROPS["C06"] = {
+    "level": "other",
+    "technique": "Verus contracts on the extracted WriteBuffer (append / take / clear conserve the batch sequence and keep the two counters equal to the sums), Ingester::append_to_buffer_and_maybe_flush (an accepted batch is accounted for exactly once, after everything before it; BufferFull appends and drops nothing; flush-before-append on schema change), Ingester::flush_batches (exactly one upload under a fresh path, one registration whose entry carries the written data's row count, min and max timestamp, one legacy and one topic announcement, in this order) and extract_min_timestamp / extract_max_timestamp (true minimum / maximum for both supported column types)",
+    "verus": ["c06_ingest.rs.in"],
+    "explanation": "Sequential obligations proved for all batch sequences, thresholds and schemas; the buffer lock is read as ownership (take and append happen under the same write guard). Interleavings of concurrent writers and the timer flush are not explored (each path is proved separately: every take() is followed by exactly one flush_batches call with exactly the taken batches). Value preservation of concat_batches and the Parquet encoder is assumed. The all-null timestamp column yields min = max = 0 (flagged, not a violation of the stated property).",
+    "assumptions": [
+        "arrow concat_batches / Parquet writer preserve rows and values; arrow::compute::min / max return the true minimum / maximum of the non-null values",
+        "generate_path (clock + UUIDv4) returns a path not used before",
+        "buffered row / byte counts stay within usize",
+        "RwLock write guard = exclusive ownership of the buffer for the guarded region",
+        "known finding F4 (probe finding_F4_append_flush_failure): a failed flush drops the taken batches",
+    ],
+}
+
+PROPS["C01"] = {
+    "level": "other",
+    "technique": "Verus effect-order contracts on the extracted write path (WAL append before buffer append before the acknowledgement; a WAL failure buffers nothing), on flush_batches (upload, registration, announcements, then WAL truncation, then the persisted mark; a failed flush never moves the mark; under quiescence the mark equals the flushed cover) and the WAL reader / header codec units of C05; two probes record the known findings F3 and F4",
+    "verus": ["c01_durability.rs.in", "c06_ingest.rs.in", "c05_wal_reader.rs.in"],
+    "kani": ["c05_header"],
+    "explanation": "Sequential crash-point core only: between every two effects of write and flush_batches the ordering obligations hold for all inputs and all failure points of the shimmed callees (each effect either happened or not). The schedule quantifier of C01 is NOT covered beyond one rely on the shared sequence cell, and exactly there the property fails today (known findings F3, F4, demonstrated on the real code under /verif/findings). Recovery (ensure_wal) is covered through the WAL reader contract of C05; its re-buffering loop is not under contract yet. OS-level durability of synced bytes is assumed.",
+    "assumptions": [
+        "WAL append returns Ok only after the entry is durable (sync_mode EveryWrite); synced bytes survive a crash",
+        "object store put / catalog register_chunk either take effect or fail without effect",
+        "known finding F3 (probe finding_F3_flush_mark) and F4 (probe finding_F4_append_flush_failure)",
+    ],
+}
